@@ -12,3 +12,6 @@ import Cstl.Link.Props
 import Cstl.Sort.Props
 import Cstl.Tree.Props
 import Cstl.Hash.Props
+import Cstl.TreeL.Props
+import Cstl.TreeL.Tie
+import Cstl.TreeL.TieHeap
